@@ -1,13 +1,17 @@
-"""Proof bundle B of the backend properties: C05 (global timestamp order), C06 (flush_log)."""
+"""Proof bundle B of the backend properties: C05 (global timestamp order), C06 (flush_log), and the end-to-end half of
+C09 on the backend model (a blocked log call resumes; THEOREMS["C09"] / MODULES["C09"] are picked up by props/queue.py)."""
 THEOREMS = {
     "C05": ["Backend.C05_pop_order", "Backend.C05_statement_order", "Backend.C05_order_continues",
             "Backend.C05_pinned_order_violates", "Backend.C05_premise_needed", "Obligations.C05_extracted"],
     "C06": ["Backend.C06_conservation", "Backend.C06_flag_only_after_pop", "Backend.C06_flag_numbers_unique",
             "Backend.C06_own_statements_first", "Backend.C06_flush_step", "Backend.C06_other_threads",
-            "Backend.C06_flush_never_dropped", "Backend.C06_release", "Backend.C06_flush_log_returns_partial", "Backend.C06_flush_log_returns_after_grace_partial",
+            "Backend.C06_flush_never_dropped", "Backend.C06_release", "Backend.C06_flush_log_returns_committed", "Backend.C06_flush_log_returns_committed_after_grace",
+            "Backend.C06_flush_log_returns",
             "Backend.C06_flush_log_contract", "Backend.C06_nothing_unflushed_at_raise",
             "Backend.C06_pinned_order_violates", "Backend.C06_removed_logger_sink_not_flushed_unrepaired", "Backend.C06_removed_logger_sink_flushed",
             "Obligations.C06_extracted"],
+    "C09": ["Backend.C09_drain_publishes", "Backend.C09_blocked_call_resumes", "Backend.C09_obs_ret1",
+            "Backend.C09_call_after_drain_accepted", "Backend.C09_drain_rule_needed", "Obligations.C09_backend_extracted"],
 }
-MODULES = {"C05": ["QuillModel.Props.C05"], "C06": ["QuillModel.Props.C06"]}
+MODULES = {"C05": ["QuillModel.Props.C05"], "C06": ["QuillModel.Props.C06"], "C09": ["QuillModel.Props.C09Backend"]}
 OBLIG = ["QuillModel.Obligations.BackendB"]
